@@ -465,6 +465,16 @@ def o1_recovery_order(ctx):
                         if a.get("k") == "const" and "parse" in (a.get("fn") or "") and "u64" in " ".join(a.get("fn_args") or []):
                             good = True
         r.add(f, "ids are parsed as u64 before ordering", good, short_span(sf[0].span))
+    # every directory entry is looked at: nothing in the chain may end or thin out the traversal early
+    cut = []
+    for x in sf:
+        for bb, t in x.calls():
+            if bb not in x.live_blocks():
+                continue
+            cn = strip_generics(t.get("callee") or "")
+            if cn.startswith(("std::iter::Iterator::", "core::iter::Iterator::")) and cn.split("::")[-1] in ("map_while", "take_while", "take", "skip", "skip_while", "step_by", "scan", "nth", "nth_back", "fuse"):
+                cut.append((x, bb, cn.split("::")[-1]))
+    r.add(f, "the directory is traversed to its end (no map_while / take_while / take / skip / step_by / scan / nth / fuse in the chain)", not cut, where(cut[0][0], cut[0][1]) if cut else short_span(sf[0].span), "" if not cut else "`%s` stops at (or skips past) some entries: a file with a foreign name ends the listing, ids after it are not replayed and the next active id can fall below an existing file" % cut[0][2])
     # which files are recovered depends on their name and type only — never on size or time
     for x in sf:
         for _, bb, t in calls_in([x], "std::fs::metadata", "std::path::Path::metadata", "std::fs::DirEntry::metadata", "std::fs::Metadata::len", "std::fs::Metadata::modified", "std::fs::Metadata::created", "std::fs::symlink_metadata"):
